@@ -8,8 +8,9 @@ use ppoprf::ppoprf as pp;
 use serde_json::{json, Value};
 use std::collections::BTreeSet;
 
-pub const REGISTERED: [u8; 5] = [0, 1, 2, 6, 255];
-pub const TAGS: [u8; 7] = [0, 1, 2, 6, 255, 3, 254];
+// 0/128 and 126/254 are deepest-level siblings (x ^ 0x80); 0,2,6 share the low-bit-0 half of the tree
+pub const REGISTERED: [u8; 6] = [0, 1, 2, 6, 128, 255];
+pub const TAGS: [u8; 8] = [0, 1, 2, 6, 128, 255, 3, 254];
 const MAX_INST: usize = 3;
 
 #[derive(Clone, Debug, PartialEq, Eq, Hash, serde::Serialize, serde::Deserialize)]
@@ -358,6 +359,8 @@ fn fixed_histories() -> Vec<Vec<Act>> {
     // second puncture in the same half of the tree, then check survivors
     vec![Puncture(0, 0), Puncture(0, 2), Clone(0), Puncture(1, 254), Puncture(1, 6), Sync(1, 0)],
     vec![Puncture(0, 255), Puncture(0, 3), Puncture(0, 1), ExportImportFresh(0), Puncture(1, 254), Puncture(1, 6), Puncture(1, 2), Puncture(1, 0)],
+    // deepest-level siblings in both orders, on two instances, then sync
+    vec![Clone(0), Puncture(0, 128), Puncture(0, 0), Puncture(1, 0), Puncture(1, 128), Sync(0, 1), Puncture(1, 254), ExportImportFresh(1)],
   ]
 }
 
@@ -366,7 +369,7 @@ pub fn spec() -> PropSpec {
     id: "C14",
     level: "model_checking",
     assumptions: vec![
-      "evaluations do not change server state (checked: they are part of the invariant, evaluated in every state), so the action alphabet is {puncture(i, tag), clone(i), export+import into a fresh instance, export(i)+import into existing instance j}; up to 3 instances; tags {0,1,2,6,255} registered, {3,254} unregistered",
+      "evaluations do not change server state (checked: they are part of the invariant, evaluated in every state), so the action alphabet is {puncture(i, tag), clone(i), export+import into a fresh instance, export(i)+import into existing instance j}; up to 3 instances; tags {0,1,2,6,128,255} registered, {3,254} unregistered (0/128 are deepest-level siblings)",
       "reference model: (registered set, punctured set per instance); outputs compared with the answers of the original server, proofs verified against the original public key",
       "history depth bounded (quick 3, thorough 5) plus fixed longer histories; proofs use fresh entropy per request (scripted stream), only their verification result is observed",
     ],
@@ -388,7 +391,7 @@ pub fn spec() -> PropSpec {
       },
       Check {
         name: "fixed-histories",
-        rule: "5 longer hand-written histories (follower re-syncing repeatedly, re-import of an older state, puncturing every tag incl. unregistered and extreme ones, two punctures in one half of the tree): full invariant on every instance after every step",
+        rule: "6 longer hand-written histories (follower re-syncing repeatedly, re-import of an older state, puncturing every tag incl. unregistered and extreme ones, two punctures in one half of the tree): full invariant on every instance after every step",
         gen: |_| fixed_histories().into_iter().map(|h| json!({"history": serde_json::to_value(h).unwrap()})).collect(),
         run: run_history,
         min_counts: &[("states", 30)],
